@@ -10,7 +10,7 @@
    (r, list) for Tags and Referrers, and ("*", list) for Repositories under AccessChecker.
    The third component of a step's result is the trace: the backend calls made. *)
 From Coq Require Import String.
-From OCI Require Import Model.Filter Model.FilterStack Proofs.FilterSelect Proofs.FilterStack.
+From OCI Require Import Model.Filter Model.FilterStack Model.FilterIter Proofs.FilterSelect Proofs.FilterStack Proofs.FilterIter.
 
 (* When the policy rejects any of the pairs a call needs, the wrapped registry is not
    invoked at all and its state is untouched; the first rejected pair, in the order
@@ -272,6 +272,70 @@ Theorem C12_stack_of_one :
     stack_step [l] bstep st o = ac_step (l_check l) (l_listAll l) bstep st o.
 Proof. exact @stack_one. Qed.
 Print Assumptions C12_stack_of_one.
+
+(* ---- the iterator methods as Go evaluates them, under every caller of the returned Seq ----
+   (Model/FilterIter.v: a method call = the calls its body makes on the innermost registry +
+   the Seq it returns; a Seq = a function of the caller's callback; [evs] = what the
+   innermost registry's iterator hands out, arbitrary.) *)
+
+(* Repositories, Tags or Referrers rejected by ANY level of a stack: the method body makes no
+   call on the innermost registry, and the returned Seq, iterated with ANY callback in ANY
+   state - one that answers "more" to the error included - calls it exactly once, with the
+   zero item and the error of the outermost rejecting level, and does nothing else (the
+   state afterwards is the callback's own: no innermost call, no innermost yield).  Since
+   this holds for every state it holds for every iteration of the same Seq. *)
+Theorem C12_iter_rejected_under_every_caller :
+  forall (l : layer) (ls : list layer) (evs : list yld) (o : op) (e : err),
+    is_iter_op o = true -> stack_denial (l :: ls) o = Some e ->
+    fst (istack (l :: ls) evs o) = [] /\
+    forall (yield : yfun istate) (st : istate),
+      snd (istack (l :: ls) evs o) yield st = fst (yield (@nil N, Some e) st).
+Proof. exact iter_denied. Qed.
+Print Assumptions C12_iter_rejected_under_every_caller.
+
+(* Every call that reaches the innermost registry at any time - while the method body runs
+   or during any of any number of iterations by any callers - is the call itself, and then
+   no level rejects it. *)
+Theorem C12_iter_calls_allowed :
+  forall (l : layer) (ls : list layer) (evs : list yld) (o : op) (cs : list cons) (o' : op),
+    is_iter_op o = true ->
+    In o' (fst (irun (l :: ls) evs o cs) ++ concat (map snd (snd (irun (l :: ls) evs o cs)))) ->
+    o' = o /\ stack_denial (l :: ls) o = None.
+Proof. exact irun_calls. Qed.
+Print Assumptions C12_iter_calls_allowed.
+
+(* Tags / Referrers allowed by every level: the very call and the very Seq of the innermost
+   registry. *)
+Theorem C12_iter_allowed_is_identity :
+  forall (ls : list layer) (evs : list yld) (o : op),
+    is_list_op o = true -> stack_denial ls o = None -> istack ls evs o = ibottom evs o.
+Proof. exact iter_allowed_list. Qed.
+Print Assumptions C12_iter_allowed_is_identity.
+
+(* Repositories allowed by every level, iterated any number of times by any callers: the
+   method body calls nothing; every iteration calls the innermost Repositories once with
+   the same argument and hands its caller the names every level lets be read, in order, up
+   to the first error, then that error and nothing after it - cut after the first yield
+   the caller answers "stop" to. *)
+Theorem C12_iter_listing_under_every_caller :
+  forall (l : layer) (ls : list layer) (evs : list yld) (start : bytes) (cs : list cons),
+    star_denial (l :: ls) = None ->
+    fst (irun (l :: ls) evs (Repositories start) cs) = [] /\
+    Forall2 (fun c it =>
+               i_got it = take_more c 0 (kept_upto_error (stack_keep (l :: ls)) evs) /\
+               snd it = [Repositories start])
+            cs (snd (irun (l :: ls) evs (Repositories start) cs)).
+Proof. exact irun_allowed_repos. Qed.
+Print Assumptions C12_iter_listing_under_every_caller.
+
+(* A caller that answers "more" when it is handed the error, iterating twice the Seq of a
+   rejected Tags call: the error each time, the tags never, the innermost registry not called. *)
+Example C12_example_iter_rejected_carries_on :
+  irun [checker_layer (fun r k => if beqb r (s "private") && akind_eqb k AccessList then Some ErrDenied else None)]
+       [(s "v1", None); (s "v2", None)] (Tags (s "private") [])
+       [Cons [] true None; Cons [] true (Some true)]
+  = ([], [([([], Some ErrDenied)], 0%nat, []); ([([], Some ErrDenied)], 0%nat, [])]).
+Proof. reflexivity. Qed.
 
 (* The hypotheses are satisfiable by non-trivial values: a policy that rejects the target
    of a mount but not its source stops the call; one that rejects only another access kind
